@@ -475,6 +475,78 @@ impl Arena {
     }
 //@@end
 
+//@@fn file=unsync.rs scope="impl Arena {" name=alloc_slow_path_optimistic xlate=unsync st=mut props=C01,C03,C04,C08,C09,C10,C20
+//@contract
+  requires
+    wf(self.av(), old(st)@),
+    self.freelist == Freelist::Optimistic,
+    old(st)@.discarded + 8 <= u32::MAX as int, // [C20]
+  ensures
+    self.ro ==> r matches Err(Error::ReadOnly), // [C09 C04]
+    r.is_err() ==> final(st)@ == old(st)@, // [C04 C09]
+    !self.ro ==> (r.is_err() <==> pick(old(st)@.list, size, self.freelist) == old(st)@.list.len()), // [C10 C04]
+    r matches Err(e) ==> (e matches Error::ReadOnly) || (e matches Error::InsufficientSpace { .. }), // [C04]
+    r matches Ok(m) ==> slow_ok(self.av(), old(st)@, final(st)@, size, pick(old(st)@.list, size, self.freelist),
+          m.memory_offset as int, m.memory_size as int, m.ptr_offset as int, m.ptr_size as int), // [C10 C03 C20 C01]
+    r matches Ok(m) ==> all_zero(final(st)@.bytes, m.ptr_offset as int, m.ptr_offset as int + m.ptr_size as int), // [C08]
+    r matches Ok(m) ==> clear_of_list(final(st)@.list, m.memory_offset as int, m.ptr_offset as int + m.ptr_size as int), // [C01]
+    r matches Ok(m) ==> m.parent_ptr == self.ptr as *const u8,
+    frame_ok(old(st)@.list, old(st)@.bytes, final(st)@.bytes, 0, 0), // [C01]
+    wf_shape(self.av(), final(st)@), // [C01 C10]
+    wf_order(self.av(), final(st)@), // [C10]
+//@before 1 /let sentinel = st\.load\(CellRef::Sentinel\);/
+    let ghost s0 = st@;
+    let ghost l = s0.list;
+    let ghost k: int = 0;
+    proof {
+      lemma_dec_enc(size_of_cell(l, -1), next_of(l, -1));
+      assert(word(s0, cell_of(l, -1)) == enc(size_of_cell(l, -1), next_of(l, -1)));
+    }
+//@before 1 /let head = self\.get_segment_node\(st, head_node_offset\);/
+    let ghost n = l[0];
+    proof {
+      assert(l.len() > 0);
+      assert(node_ok(self.av(), s0, n));
+      lemma_dec_enc(size_of_cell(l, 0), next_of(l, 0));
+      assert(word(s0, cell_of(l, 0)) == enc(size_of_cell(l, 0), next_of(l, 0)));
+    }
+//@after 1 /st\.store\(CellRef::Sentinel, encode_segment_node\(sentinel_node_size, next_node_offset\)\);/
+    proof {
+      st.list = Ghost(l.remove(k));
+      lemma_remove_bytes(self.av(), s0, st@, k);
+      lemma_remove_shape(self.av(), s0, st@, k);
+      lemma_remove_order(self.av(), s0, st@, k);
+    }
+    let ghost s1 = st@;
+//@after 1 /let data_end_offset = segment_node\.data_offset \+ size;/
+    proof {
+      assert(s1.list == l.remove(k));
+    }
+//@after 1 /self\.optimistic_dealloc\(st, data_end_offset, remaining\);/
+      proof {
+        lemma_first_idx_bounds(s1.list, seg_node(data_end_offset as int, remaining as int).1, false);
+        lemma_clear_of_list_insert(s1.list, first_idx(s1.list, seg_node(data_end_offset as int, remaining as int).1, false), seg_node(data_end_offset as int, remaining as int), n.0 as int, data_end_offset as int);
+      }
+//@before 1 /let mut allocated = Meta::new\(self\.ptr as _, segment_node\.ptr_offset, memory_size\);/
+    let ghost s2 = st@;
+    proof {
+      lemma_in_list_remove(l, k);
+      lemma_frame_compose(l, s1.list, s0.bytes, s1.bytes, s2.bytes, data_end_offset as int, data_end_offset as int + remaining as int, k);
+      assert(clear_of_list(s2.list, n.0 as int, data_end_offset as int));
+    }
+//@after 1 /allocated\.clear\(self, st\);/
+    proof {
+      lemma_zero_written(s2.bytes, n.0 as int + 8, size as int);
+      lemma_clear_headers(s2.list, n.0 as int + 8, data_end_offset as int);
+      lemma_wf_frame(self.av(), s2, st@, n.0 as int + 8, data_end_offset as int);
+      assert(frame_ok(l, s0.bytes, st@.bytes, 0, 0)) by {
+        assert forall|b: int| 0 <= b < s0.bytes.len() implies st@.bytes[b] == s0.bytes[b] || 0 <= b < 0 || #[trigger] in_list(l, b) by {
+          if n.0 as int + 8 <= b < data_end_offset as int { assert(in_node(l[k], b)); }
+        }
+      }
+    }
+//@@end
+
 } // impl Arena
 
 } // verus!
